@@ -78,6 +78,11 @@ LASTS = {
     "loop": "stel k = 0; zolang k < 2 { k += 1; t = t + 8; };",
     "assign": "t = t + 9;",
     "two-exprs": "1; 2;",
+    # branches / bodies that emit NO code of their own or whose only statement emits none
+    "only-empty-block": "{};",
+    "only-nested-empty": "{ { }; };",
+    "only-empty-if": "als t > 100 { };",
+    "only-dead-loop": "zolang nee { t = t + 50; };",
 }
 EXITS = {"stop": "t = t + 20; stop;", "volgende": "t = t + 30; volgende;", "antwoord": "antwoord t + 40;"}
 
@@ -207,6 +212,15 @@ def fam_calls():
 # ------------------------------------------------------------------ C09: scoping
 def fam_scoping():
     out = [
+        # a NAMED function declared in a block / branch / loop body is a declaration of that block: it ends with the block and
+        # does not disturb an outer variable of the same name (blocks with and without a `stel` of their own)
+        ("scope:named-fn-in-branch-ends-with-it", "als %s < %s { functie dubbel(n) { n * 2 }; dubbel(1); }; dubbel(2)" % (H0, H1)),
+        ("scope:named-fn-in-bare-block-ends-with-it", 'print("start"); { functie dubbel(n) { n * 2 }; print(dubbel(4)); }; print(dubbel(5))'),
+        ("scope:named-fn-in-loop-shadows-only-inside", "stel hulp = 10; stel i = 0; zolang i < 2 { functie hulp(n) { n + %s }; i = i + 1; hulp(i); }; [hulp, i]" % H0),
+        ("scope:named-fn-in-block-shadows-only-inside", "stel f = %s; stel r = 0; { functie f() { 7 }; r = f(); }; [f, r]" % H0),
+        ("scope:named-fn-in-block-with-stel", "stel f = %s; stel r = 0; { stel pad = 1; functie f() { 7 }; r = f() + pad; }; [f, r]" % H0),
+        ("scope:named-fn-in-else-branch", "stel g = 3; als %s < %s { g = 4; } anders { functie g() { 9 }; g(); }; g" % (H0, H1)),
+        ("scope:named-fn-in-fn-body-block", "functie buiten(x) { stel h = x; { functie h() { 5 }; h(); }; h }; buiten(%s)" % H0),
         ("scope:shadow-block", "stel a = %s; { stel a = %s; a = a + 1; }; a" % (H0, H1)),
         ("scope:shadow-block-read", "stel a = %s; stel r = 0; { stel a = %s; r = a; }; [a, r]" % (H0, H1)),
         ("scope:redeclare-same", "stel a = %s; stel a = %s; a" % (H0, H1)),
